@@ -69,6 +69,18 @@ CHECKS['C01'] = dict(
    technique="TLA+ spec (stack machine = depth contract by TLC) + spec->code replay of every generated abbreviation",
    ref="5/C01")
 
+CHECKS['C02'] = dict(
+   text="AbbrRepeat.tla: generator of abbreviations with *N on elements and groups and eight numbering forms in names, classes, "
+        "attribute values and text; the converter's copy loop as an explicit work-stack machine (EnterNode, BeginCopy, NextKid, "
+        "EndCopy with the repeat budget). TLC checks: unlimited budget = stack-free unrolling with Counter(i,N,base,rev) of the nearest "
+        "repeated item; any budget = functional contract threading completed copies in document order; guard = limit - completed; no "
+        "second or later copy begins once the limit is reached; every written element at least once; padding width. Every terminal "
+        "state (abbreviation, maxRepeat) is replayed through expand() and compared on copies, nesting and printed counters.",
+   note="Bounded (tokens, nesting, N<=4, limits {1,2,3,5,8}); '@-' values under a truncating limit are not judged (statement silent). "
+        "Trusted: TLC, tag lexer.",
+   technique="TLA+ step machine = contracts (TLC) + spec->code replay of every terminal state",
+   ref="5/C02")
+
 NOT_YET = {}
 
 def main():
